@@ -8,7 +8,7 @@ use std::collections::HashMap;
 
 use rtlib::{
     dag::{is_canonical_shape, shapes, Cmd, Dag, Kind, MergeRank, Node, Op},
-    replica::{graph_id_of, MemReplica, Obs},
+    replica::{graph_id_of, MemReplica},
     rt::{CmdId, GraphId},
 };
 
@@ -109,13 +109,6 @@ impl World {
     pub fn is_down_closed(&self, s: &NodeSet) -> bool {
         s.iter().all(|i| self.anc[i].subset_of(s))
     }
-    pub fn down_close(&self, s: &NodeSet) -> NodeSet {
-        let mut out = s.clone();
-        for i in s.iter() {
-            out = out.union(&self.anc[i]);
-        }
-        out
-    }
     pub fn frontier(&self, s: &NodeSet) -> Vec<usize> {
         let mut covered = NodeSet::empty(self.n());
         for i in s.iter() {
@@ -141,22 +134,6 @@ impl World {
             }
         }
         out
-    }
-    /// Node set of an observation. `Err` names a stored command the universe does not contain
-    /// or whose stored content differs from the universe's command.
-    pub fn set_of(&self, obs: &Obs) -> Result<NodeSet, String> {
-        let mut s = NodeSet::empty(self.n());
-        for (id, sc) in &obs.cmds {
-            let Some(&i) = self.idx_of.get(id) else {
-                return Err(format!("stored command {id} is not a command of the universe"));
-            };
-            let c = &self.cmds[i];
-            if sc.bytes != c.data || sc.max_cut != self.max_cuts[i] {
-                return Err(format!("stored command {} differs from the universe's command", rtlib::dag::node_name(i)));
-            }
-            s.insert(i);
-        }
-        Ok(s)
     }
 }
 
@@ -331,11 +308,24 @@ pub fn build(w: &World, set: &NodeSet, layout: Layout) -> Result<MemReplica, Str
     Ok(r)
 }
 
-/// Committed node set of a replica (empty when the graph is absent).
+/// Committed node set of a replica (empty when the graph is absent): a graph walk from the
+/// committed heads through `Storage::get_segment` (no fact dump, no hello head).
 pub fn committed(w: &World, r: &mut MemReplica) -> Result<NodeSet, String> {
-    if !r.has_graph() {
+    use rtlib::rt::{Storage as _, StorageProvider as _};
+    let Ok(storage) = r.client.provider().get_storage(w.graph) else {
         return Ok(NodeSet::empty(w.n()));
+    };
+    let heads: Vec<_> = storage.get_heads().map_err(|e| format!("get_heads: {e}"))?.iter().map(|h| h.location()).collect();
+    let cmds = rtlib::replica::walk(&*storage, heads.into_iter())?;
+    let mut s = NodeSet::empty(w.n());
+    for (id, sc) in &cmds {
+        let Some(&i) = w.idx_of.get(id) else {
+            return Err(format!("stored command {id} is not a command of the universe"));
+        };
+        if sc.bytes != w.cmds[i].data || sc.max_cut != w.max_cuts[i] {
+            return Err(format!("stored command {} differs from the universe's command", rtlib::dag::node_name(i)));
+        }
+        s.insert(i);
     }
-    let obs = r.observe()?;
-    w.set_of(&obs)
+    Ok(s)
 }
